@@ -9,8 +9,9 @@
 (*   OrderSane  Lookup!Before is a strict total order on the rows whenever the precondition         *)
 (*              (mutually comparable sort values) holds - so the admissible sequence is unique;     *)
 (*   ModelSane  rows ascending by id, ids and positions distinct, every listed edit applicable.     *)
-(* The maximal histories (leaves) are written to OUT_FILE together with the standard observers and  *)
-(* probes; the harness runs the real engine on them and Trace_Lookup judges every step.             *)
+(* The maximal histories (leaves) are written to OUT_FILE together with the observers of each family *)
+(* (a history names its family's observer list by `ox` and carries its probes); the harness runs  *)
+(*  the real engine on them and Trace_Lookup judges every step.             *)
 EXTENDS Lookup, TLC, Json, IOUtils, SequencesExt, FiniteSetsExt
 CONSTANTS Fams
 
@@ -39,43 +40,55 @@ ObsStd == <<
 >>
 
 P(id, q, p) == [id |-> id, q |-> q, p |-> p]
-ProbesStd == << P(1, I(1), I(1)), P(2, I(2), I(1)), P(3, St("1"), I(2)), P(4, Fl(3), I(1)),
-                P(5, None, I(1)), P(6, St("x"), I(1)), P(7, St("a"), I(1)), P(8, St(""), I(2)) >>
+\* probes (rows of O): q is the looked-up value, p a second key for the two-key observer
+PK  == << P(1, I(1), I(1)), P(2, I(2), I(1)), P(3, St("1"), I(1)), P(4, Fl(3), I(1)), P(5, None, I(1)) >>
+PS  == << P(1, I(1), I(1)), P(2, St("1"), I(1)), P(3, I(2), I(1)) >>
+PL  == << P(1, St("a"), I(1)), P(2, St("b"), I(1)), P(3, St(""), I(1)), P(4, St("a"), I(2)) >>
+PR  == << P(1, I(1), I(1)), P(2, None, I(1)), P(3, St("x"), I(1)), P(4, St(""), I(1)), P(5, St("a"), I(1)) >>
 
 (* ---- families ------------------------------------------------------------------------------- *)
-Fam(name, n0, K, Lv, S1, S2, R, ops, depth, maxrows) ==
+\* obs: the observers (indices into ObsStd) that O holds in this family; probes: the rows of O
+Fam(name, n0, K, Lv, S1, S2, R, ops, depth, maxrows, obs, probes) ==
   [name |-> name, n0 |-> n0, K |-> K, Lv |-> Lv, S1 |-> S1, S2 |-> S2, R |-> R, ops |-> ops,
-   depth |-> depth, maxrows |-> maxrows]
+   depth |-> depth, maxrows |-> maxrows, obs |-> obs, probes |-> probes]
 
 La  == Li(<<St("a")>>)
 Lab == Li(<<St("a"), St("b")>>)
 Lb  == Li(<<St("b")>>)
 K12 == {I(1), I(2)}
 DataOps == {"updk", "upds1", "add", "rem", "mv"}
+OK1 == <<1, 2, 3, 4, 5, 6, 8, 10>>          \* key k, orders over s1 / manualSort
+OS2 == <<2, 3, 4, 5, 6, 7, 8, 9>>           \* orders over s1, s2, manualSort, id
+OL  == <<11, 12, 13, 2>>                    \* CONTAINS
+OR  == <<14, 15, 1, 5, 16>>                 \* reference key, Int key with empty / alt-text cells, Text key
+OM  == <<1, 2, 3, 5, 10>>
+OX  == <<1, 2, 3, 4, 5, 12>>
 
 QuickFams == <<
   \* key and one sort column: index and sorted-cache maintenance
-  Fam("key",    2, K12, {None}, {None, I(1)}, {St("a")}, {I(0)}, DataOps, 2, 3),
+  Fam("key",    2, K12, {None}, {None, I(1)}, {St("a")}, {I(0)}, DataOps, 2, 3, OK1, PK),
   \* one key, two sort columns and manualSort
-  Fam("sort2",  2, {I(1)}, {None}, {I(1), I(2)}, {St("a"), St("b")}, {I(0)}, {"upds1", "upds2", "mv", "add", "rem"}, 2, 3),
+  Fam("sort2",  2, {I(1)}, {None}, {I(1), I(2)}, {St("a"), St("b")}, {I(0)}, {"upds1", "upds2", "mv", "rem"}, 2, 2, OS2, PS),
   \* CONTAINS on a list column
-  Fam("list",   1, {I(1)}, {None, La, Lab}, {I(1), I(2)}, {St("a")}, {I(0)}, {"updL", "upds1", "add", "rem"}, 2, 2),
+  Fam("list",   1, {I(1)}, {None, La, Lab}, {I(1), I(2)}, {St("a")}, {I(0)}, {"updL", "upds1", "add", "rem"}, 2, 2, OL, PL),
   \* reference keys, alt-text and empty keys
-  Fam("ref",    2, {I(1), None, St("x")}, {None}, {I(1)}, {St("a")}, {I(1), I(2)}, {"updk", "updr", "rem"}, 2, 2),
+  Fam("ref",    2, {I(1), None, St("x")}, {None}, {I(1)}, {St("a")}, {I(1), I(2)}, {"updk", "updr", "rem"}, 2, 2, OR, PR),
   \* two cells in one action, bulk updates, undo
-  Fam("multi",  2, K12, {None}, {I(1), I(2)}, {St("a")}, {I(0)}, {"upd2", "bupd", "undo", "rem"}, 2, 2),
+  Fam("multi",  2, K12, {None}, {I(1), I(2)}, {St("a")}, {I(0)}, {"upd2", "bupd", "undo", "rem"}, 2, 2, OM, PK),
   \* schema-level edits: type change of the sort column, observers re-entered, ReplaceTableData, probe edits
-  Fam("schema", 2, K12, {None}, {I(1), I(2)}, {St("a")}, {I(0)}, {"retype", "reobs", "repl", "probe", "upds1"}, 2, 2)
+  Fam("schema", 2, K12, {None}, {I(1), I(2)}, {St("a")}, {I(0)}, {"retype", "reobs", "repl", "probe", "upds1"}, 2, 2, OX, PK)
 >>
 ThoroughFams == <<
-  Fam("key",    2, K12, {None}, {None, I(1)}, {St("a")}, {I(0)}, DataOps, 3, 3),
-  Fam("key3",   2, K12, {None}, {None, I(1), I(2)}, {St("a")}, {I(0)}, DataOps, 2, 3),
-  Fam("sort2",  2, {I(1)}, {None}, {I(1), I(2)}, {St("a"), St("b")}, {I(0)}, {"upds1", "upds2", "mv", "add", "rem"}, 3, 3),
-  Fam("list",   1, {I(1)}, {None, La, Lab, Lb}, {I(1), I(2)}, {St("a")}, {I(0)}, {"updL", "upds1", "add", "rem"}, 3, 3),
-  Fam("ref",    2, {I(1), None, St("x")}, {None}, {I(1), I(2)}, {St("a")}, {I(1), I(2)}, {"updk", "updr", "upds1", "rem", "add"}, 2, 3),
-  Fam("multi",  2, K12, {None}, {I(1), I(2)}, {St("a")}, {I(0)}, {"upd2", "bupd", "undo", "rem", "add"}, 3, 3),
-  Fam("schema", 2, K12, {None}, {I(1), I(2)}, {St("a")}, {I(0)}, {"retype", "reobs", "repl", "probe", "upds1", "updk"}, 3, 2)
+  Fam("key",    2, K12, {None}, {None, I(1)}, {St("a")}, {I(0)}, DataOps, 3, 3, OK1, PK),
+  Fam("key3",   2, K12, {None}, {None, I(1), I(2)}, {St("a")}, {I(0)}, DataOps, 2, 3, OK1, PK),
+  Fam("sort2",  2, {I(1)}, {None}, {I(1), I(2)}, {St("a"), St("b")}, {I(0)}, {"upds1", "upds2", "mv", "add", "rem"}, 3, 3, OS2, PS),
+  Fam("list",   1, {I(1)}, {None, La, Lab, Lb}, {I(1), I(2)}, {St("a")}, {I(0)}, {"updL", "upds1", "add", "rem"}, 3, 3, OL, PL),
+  Fam("ref",    2, {I(1), None, St("x")}, {None}, {I(1), I(2)}, {St("a")}, {I(1), I(2)}, {"updk", "updr", "upds1", "rem", "add"}, 2, 3, OR, PR),
+  Fam("multi",  2, K12, {None}, {I(1), I(2)}, {St("a")}, {I(0)}, {"upd2", "bupd", "undo", "rem", "add"}, 3, 3, OM, PK),
+  Fam("schema", 2, K12, {None}, {I(1), I(2)}, {St("a")}, {I(0)}, {"retype", "reobs", "repl", "probe", "upds1", "updk"}, 3, 2, OX, PK)
 >>
+
+ObsOf(fm) == [x \in 1..Len(fm.obs) |-> ObsStd[fm.obs[x]]]
 
 Contents(fm) == {Content(a, b, c, d, e) : a \in fm.K, b \in fm.Lv, c \in fm.S1, d \in fm.S2, e \in fm.R}
 Inits(fm) == [1..fm.n0 -> Contents(fm)]
@@ -118,7 +131,7 @@ Changes(ss, e) ==
   IN e.op \in {"reobs", "undo", "repl"} \/ a.ty # b.ty \/ a.probes # b.probes \/ Ranked(a.rows) # Ranked(b.rows)
 Moves(fm, ss, edits) == {e \in EditsOf(fm, ss, edits) : Applicable(ss[Len(ss)], e) /\ Changes(ss, e)}
 
-Start(init) == <<State0(ProbesStd), Loaded(ProbesStd, init)>>
+Start(fm, init) == <<State0(fm.probes), Loaded(fm.probes, init)>>
 
 (* ---- the maximal histories, as a sequence (never one big set: TLC's union of sets is quadratic) -- *)
 RECURSIVE LeavesFrom(_, _, _, _), LeavesOver(_, _, _, _, _, _)
@@ -130,18 +143,18 @@ LeavesOver(fm, ss, edits, d, es, j) ==
   ELSE LeavesFrom(fm, Append(ss, StepTo(ss, es[j])), Append(edits, es[j]), d - 1)
        \o LeavesOver(fm, ss, edits, d, es, j + 1)
 
-RECURSIVE HistOfInits(_, _, _)
-HistOfInits(fm, inits, j) ==
+RECURSIVE HistOfInits(_, _, _, _)
+HistOfInits(k, fm, inits, j) ==
   IF j > Len(inits) THEN <<>>
-  ELSE LET lv == LeavesFrom(fm, Start(inits[j]), <<>>, fm.depth)
-       IN [x \in 1..Len(lv) |-> [fam |-> fm.name, init |-> inits[j], edits |-> lv[x]]]
-          \o HistOfInits(fm, inits, j + 1)
+  ELSE LET lv == LeavesFrom(fm, Start(fm, inits[j]), <<>>, fm.depth)
+       IN [x \in 1..Len(lv) |-> [fam |-> fm.name, ox |-> k, probes |-> fm.probes, init |-> inits[j], edits |-> lv[x]]]
+          \o HistOfInits(k, fm, inits, j + 1)
 RECURSIVE AllHist(_)
 AllHist(k) == IF k > Len(Fams) THEN <<>>
-              ELSE HistOfInits(Fams[k], SetToSeq(Inits(Fams[k])), 1) \o AllHist(k + 1)
+              ELSE HistOfInits(k, Fams[k], SetToSeq(Inits(Fams[k])), 1) \o AllHist(k + 1)
 
 ASSUME "OUT_FILE" \in DOMAIN IOEnv
-       => JsonSerialize(IOEnv.OUT_FILE, [obs |-> ObsStd, probes |-> ProbesStd, hist |-> AllHist(1)])
+       => JsonSerialize(IOEnv.OUT_FILE, [obsets |-> [k \in 1..Len(Fams) |-> ObsOf(Fams[k])], hist |-> AllHist(1)])
 
 (* ---- facts the property text names, stated on the value model ----------------------------------- *)
 ASSUME Conv("Int", St("1")) = I(1) /\ Conv("Int", Fl(3)) = I(1) /\ Conv("Int", Bo(TRUE)) = I(1)
@@ -155,7 +168,7 @@ VARIABLES f, init, edits, ss
 vars == <<f, init, edits, ss>>
 
 Init == \E k \in 1..Len(Fams) :
-          /\ f = k /\ init \in Inits(Fams[k]) /\ edits = <<>> /\ ss = Start(init)
+          /\ f = k /\ init \in Inits(Fams[k]) /\ edits = <<>> /\ ss = Start(Fams[k], init)
 Next == /\ Len(edits) < Fams[f].depth
         /\ \E e \in Moves(Fams[f], ss, edits) :
              /\ edits' = Append(edits, e)
@@ -167,12 +180,13 @@ Cur == ss[Len(ss)]
 Tab == [ty |-> Cur.ty, rows |-> Ranked(Cur.rows)]
 
 SpecSane ==
-  \A j \in 1..Len(ObsStd) : \A i \in 1..Len(Cur.probes) :
-    Ok(Tab, ObsStd[j], Cur.probes[i], RefCell(Tab, ObsStd[j], Cur.probes[i]))
+  \A j \in 1..Len(Fams[f].obs) : \A i \in 1..Len(Cur.probes) :
+    LET o == ObsStd[Fams[f].obs[j]]
+    IN Ok(Tab, o, Cur.probes[i], RefCell(Tab, o, Cur.probes[i]))
 
 OrderSane ==
-  \A j \in 1..Len(ObsStd) :
-    LET spec == SortSpec(ObsStd[j], TRUE)
+  \A j \in 1..Len(Fams[f].obs) :
+    LET spec == SortSpec(ObsStd[Fams[f].obs[j]], TRUE)
         R == RowSet(Tab)
     IN Comparable(Tab, R, spec) =>
          /\ \A x \in R : ~Before(Tab, spec, x, x)
@@ -182,5 +196,5 @@ OrderSane ==
 ModelSane ==
   /\ \A x, y \in 1..Len(Cur.rows) : x < y => Cur.rows[x].id < Cur.rows[y].id
   /\ \A x, y \in 1..Len(Cur.rows) : x # y => Cur.rows[x].pos # Cur.rows[y].pos
-  /\ ss = States(ProbesStd, init, edits)
+  /\ ss = States(Fams[f].probes, init, edits)
 =============================================================================
